@@ -469,8 +469,10 @@ class ADC(ArithmeticInstruction):
     def lift_operation2(
         self, il: LowLevelILFunction, il_arg1: ExpressionIndex, il_arg2: ExpressionIndex
     ) -> ExpressionIndex:
+        # Add the incoming carry at 3-byte width so that n + C cannot wrap to
+        # zero (n = 0xFF, C = 1) before the flag-setting ADD sees it.
         return il.add(
-            self.width(), il_arg1, il.add(self.width(), il_arg2, il.flag(CFlag)), CZFlag
+            self.width(), il_arg1, il.add(3, il_arg2, il.flag(CFlag)), CZFlag
         )
 
 
@@ -490,8 +492,9 @@ class SBC(ArithmeticInstruction):
     def lift_operation2(
         self, il: LowLevelILFunction, il_arg1: ExpressionIndex, il_arg2: ExpressionIndex
     ) -> ExpressionIndex:
+        # See ADC: keep n + C exact so the borrow out of the SUB is correct.
         return il.sub(
-            self.width(), il_arg1, il.add(self.width(), il_arg2, il.flag(CFlag)), CZFlag
+            self.width(), il_arg1, il.add(3, il_arg2, il.flag(CFlag)), CZFlag
         )
 
 
@@ -803,13 +806,15 @@ def lift_multi_byte(
 
             if subtract:  # SBCL: m = m - n - C_in. Implemented as m - (n + C_in)
                 # The inner add (n + C_in) must NOT alter flags.
-                term_to_subtract = il.add(w, b, initial_c_flag_expr)
+                # 3-byte width: n + C_in must not wrap before the flag-setting SUB.
+                term_to_subtract = il.add(3, b, initial_c_flag_expr)
                 main_op_llil = il.sub(
                     w, a, term_to_subtract, CZFlag
                 )  # This SUB sets C and Z flags
             else:  # ADCL: m = m + n + C_in. Implemented as m + (n + C_in)
                 # The inner add (n + C_in) must NOT alter flags.
-                term_to_add = il.add(w, b, initial_c_flag_expr)
+                # 3-byte width: n + C_in must not wrap before the flag-setting ADD.
+                term_to_add = il.add(3, b, initial_c_flag_expr)
                 main_op_llil = il.add(
                     w, a, term_to_add, CZFlag
                 )  # This ADD sets C and Z flags
